@@ -4,9 +4,13 @@ mod calls;
 mod common;
 mod config;
 mod detectors;
+mod gen;
 mod dirs;
 mod layout;
+mod project;
+mod render;
 mod report;
+mod walk;
 
 use common::*;
 
@@ -83,6 +87,50 @@ fn main() {
         "names-check" => config::names_check(&a(2), &mut out),
         "report-parse-batch" => config::report_parse_batch(&a(2), &mut out),
         "report-parse" => config::report_parse(&a(2), &mut out),
+        "project" => {
+            let text = std::fs::read_to_string(a(2)).expect("read");
+            match project::project_source(&text) {
+                Some(t) => out.set("tree", t.to_json()),
+                None => out.tool_error("does not parse".into()),
+            }
+        }
+        "walk-record" => {
+            // walk-record <corpus> <full 0|1> <trace>
+            let mut w = NdjsonWriter::new(&a(4));
+            walk::record(&a(2), a(3) == "1", &mut w, &mut out);
+            w.finish();
+        }
+        "roundtrip" => {
+            // roundtrip <file>: parse, project, render one token per line, parse again, project again, compare
+            let text = std::fs::read_to_string(a(2)).expect("read");
+            match project::project_source(&text) {
+                Some(t) => {
+                    let r = render::render(&t.to_nested(1));
+                    let again = project::project_source(&r.text());
+                    let same = again.as_ref().map(|u| u.to_nested(1) == t.to_nested(1)).unwrap_or(false);
+                    out.set("roundtrip", serde_json::json!({"render_errors": r.errors, "reparsed": again.is_some(), "same": same, "tokens": r.tokens.len()}));
+                    if !same {
+                        out.set("text", serde_json::json!(r.text()));
+                        if let Some(u) = again {
+                            let (a, b) = (t.to_json(), u.to_json());
+                            let (a, b) = (a.as_array().unwrap(), b.as_array().unwrap());
+                            for i in 0..a.len().min(b.len()) {
+                                if a[i] != b[i] {
+                                    out.set("first_diff", serde_json::json!({"id": i + 1, "orig": a[i], "again": b[i]}));
+                                    break;
+                                }
+                            }
+                        }
+                    }
+                }
+                None => out.tool_error("does not parse".into()),
+            }
+        }
+        "gen-walk" => {
+            let mut w = NdjsonWriter::new(&a(3));
+            gen::walk(&a(2), &mut w, &mut out);
+            w.finish();
+        }
         _ => usage(),
     }
     out.print();
